@@ -564,10 +564,9 @@ func (s *scanningState) scan(line []byte) (bool, error) {
 				return true, nil
 			}
 		}
-		// Switch to race detection mode.
-		if bytes.Equal(trimmed, raceHeaderFooter) {
-			// TODO(maruel): We should buffer it in case the next line is not a
-			// WARNING so we can output it back.
+		// Switch to race detection mode. A goroutine dump in progress is not
+		// continued by a race report, it ends there.
+		if s.state == looking && bytes.Equal(trimmed, raceHeaderFooter) {
 			s.state = gotRaceHeader1
 			return true, nil
 		}
